@@ -17,3 +17,4 @@ import OdcGeo.Props.GenC05.AdjustBlocksize
 import OdcGeo.Props.GenC05.NormBlocksize
 import OdcGeo.Props.GenC05.NumOverviews
 import OdcGeo.Props.GenC05.CogMeta
+import OdcGeo.Props.GenC05.ComputeCogSpec
